@@ -274,7 +274,7 @@ PROPS["C16"] = dict(
                "the unguarded variant is proved to lose an update. The critical section and the error-channel capacity are facts regenerated from the source. Runtime side: the harness is built with -race and run with seeded yields at the shared-state touch points, 1..16 workers, GOMAXPROCS 1/2/4/16, injected store errors and a hang watchdog.",
     level_note=LEVEL_NOTE + "PARTIAL: the Go memory model, scheduler and channel implementation are not modelled; the race detector can exhibit a failing schedule but not exclude one. Only the ingest pool is modelled; the differ and merger goroutine pipelines are exercised (C04/C05 runs) but not modelled; double-fault channel behaviour is out of the property's single-error clause.",
     lean_modules=["WrglModel.Props.C16"],
-    race=True, env={"GORACE": "halt_on_error=1"},
+    race=True, env={"GORACE": "halt_on_error=1"}, case_timeout="200s", case_timeout_s=200,
     quick_n=48, thorough_n=600,
     rule="ingest of tables with 2..13 blocks (thorough: up to 80) with 1..16 workers, GOMAXPROCS in {1,2,4,16}, seeded random Gosched/sleep at the shared-state touch points (verif hook), "
          "1 in 6 with a store error injected into one worker; the harness binary is built with -race (GORACE=halt_on_error=1), a 60 s watchdog catches hangs; result compared with the "
@@ -324,7 +324,7 @@ _RULE_EXTRA = {
     "C13": "; every write position also as a single injected write error (the operation continues): consistency, error reported or harmless, re-run",
     "C14": "; 1 in 5 scenarios inject the fault into discard (crash or single error at each of its store operations) and discard again; commit faults as crash or single error",
     "C15": "; 1 in 8 logged sets run with a failing reflog insert (SQL trigger): must fail and change nothing",
-    "C16": "; 1 in 4 cases: a merge of 2..3 branches (256..955 rows) with a deleted block / block index of base or branch or reads failing after k, under a 20 s watchdog, and without fault compared with the one-processor outcome; the table index is compared too; 1 in 4 of the rest: the commit command's ingest helper on a store that refuses the k-th write (must return the error, never hang); 1 in 5 of the rest: a progress bar created with total in {-1,0,1,5,10,1000}, moved by 0..4 Incr/SetTotal/SetCurrent calls, finished with Done() under a 20 s timer, compared with Model/PBar.lean",
+    "C16": "; 1 in 4 cases: a merge of 2..3 branches (256..955 rows) with a deleted block / block index of base or branch or reads failing after k, under a 75 s watchdog, and without fault compared with the one-processor outcome; the table index is compared too; 1 in 4 of the rest: the commit command's ingest helper on a store that refuses the k-th write (must return the error, never hang); 1 in 5 of the rest: a progress bar created with total in {-1,0,1,5,10,1000}, moved by 0..4 Incr/SetTotal/SetCurrent calls, finished with Done() under a 20 s timer, compared with Model/PBar.lean",
     "C17": "; well-formed packfiles whose block decompresses but is invalid, or whose table object lies about its blocks (key index out of range, wrong row count, wrong width); every 4-byte window of small objects overwritten by a huge count; profiles declaring fewer field names; commit / table / profile bytes also read through the store getters",
     "C19": "; keyless tables over a tiny alphabet with the empty cell; the two outputs must agree also when keys repeat",
     "C20": "; 1 in 8: 256..335 hashes sharing a first byte added in one batch",
